@@ -16,19 +16,56 @@ COMPONENTS = {
     'stub': ['OS thread scheduling', 'clocks (snapshot timestamps chosen by the simulator)', 'os.urandom', 'object store (SimStore)'],
     'reference': ['sim/history.py RefHistory model', 'sim/ref_format.py'],
 }
-ASSUMPTIONS = ['snapshot timestamps are distinct', 'notes and paths contain no tab / newline (table parsing)']
-PROBES = ['delete']
+ASSUMPTIONS = ['snapshot timestamps are distinct', 'the process time zone is varied per case (TZ + tzset), incl. histories across DST switches', 'notes and paths contain no tab / newline (table parsing)']
+PROBES = ['delete', 'dst_switch_history']
 TIERS = {'quick': {'budget_s': 70, 'batch': 10}, 'thorough': {'budget_s': 900, 'batch': 20}}
 ORACLES = ('store', 'selection', 'listing')
 
 
+TZS = ['UTC0', 'CET-1CEST,M3.5.0,M10.5.0/3', 'EST5EDT,M3.2.0,M11.1.0', 'AEST-10AEDT,M10.1.0,M4.1.0/3', 'IST-5:30']
+
+
 def gen_case(seed, tier):
+    case = _gen_case(seed, tier)
+    from sim.core import substream
+    rng = substream(seed, 'c15-tz')
+    # the machine's local time zone must not matter: timestamps are UTC. Some histories sit on a DST switch.
+    case['tz'] = rng.choice(TZS)
+    if rng.random() < 0.35:
+        case['tz'] = 'CET-1CEST,M3.5.0,M10.5.0/3'
+        case['epoch'] = rng.choice(['2024-03-31 00:40:00', '2021-03-28 01:10:00', '2024-10-27 00:05:00'])
+        t = 0.0
+        for op in case['ops']:
+            if 'at' in op:
+                t += rng.choice([600, 1200, 1500, 2400, 3000])
+                op['at'] = t
+    return case
+
+
+def _gen_case(seed, tier):
     return history.gen_history(seed, 'c15', max_users=2, nops=(4, 24) if tier == 'thorough' else (4, 14), destructive=True, reads=True, filters=True,
                                p_snapshot=0.4)
 
 
 def run_case(case):
-    return history.History(case, 'c15', ORACLES).run()
+    import os
+    import time
+    saved = os.environ.get('TZ')
+    os.environ['TZ'] = case.get('tz', 'UTC0')
+    time.tzset()
+    try:
+        H = history.History(case, 'c15', ORACLES)
+        if case.get('epoch'):
+            import datetime as _dt
+            H.epoch = H.W.env.epoch = _dt.datetime.fromisoformat(case['epoch'])
+            H.probe('dst_switch_history')
+        return H.run()
+    finally:
+        if saved is None:
+            os.environ.pop('TZ', None)
+        else:
+            os.environ['TZ'] = saved
+        time.tzset()
 
 
 def shrink(case):
